@@ -183,7 +183,7 @@ func init() {
 			{Name: "flat-ac", Weight: 2, Fn: c01Profile("flat-ac")},
 		},
 		Components: map[string][]string{
-			"real": {"pkg/blobstore/local: flat and hierarchical blob access, old/current/new map, volatile block list, both block allocators, hashing key-location map, both record arrays", "pkg/blobstore/buffer", "pkg/blobstore CAS/AC read buffer factories, validation caching factory", "pkg/digest"},
+			"real": {"pkg/blobstore/configuration new_blob_access.go (W-config runs: the store is assembled by the unmodified NewBlobAccessFromConfiguration; top-level decorators, metrics wrappers, allocator collectors)", "pkg/blobstore/local: flat and hierarchical blob access, old/current/new map, volatile block list, both block allocators, hashing key-location map, both record arrays", "pkg/blobstore/buffer", "pkg/blobstore CAS/AC read buffer factories, validation caching factory", "pkg/digest"},
 			"stub": {"block devices (simdisk)", "upload sources / download sinks (simsource)", "slicer", "random generator (seeded)", "goroutine scheduling, sync.Mutex/RWMutex (verifsimrt)"},
 		},
 		Rule:           "a run = drawn geometry x 1-4 concurrent clients x 4-24 operations each (Put with valid/short/long/flipped/erroring sources in arbitrary chunkings, Get by 8 consumption methods with readers held open, GetFromComposite, FindMissing) under a drawn scheduling strategy; non-trivial = goroutines interleaved or an upload failed, and at least one read succeeded; distinct = distinct event-log hash",
